@@ -68,6 +68,75 @@ def _enclosing_call(f, n):
     return p
 
 
+WRAP = ('ImplicitCastExpr', 'ParenExpr', 'MaterializeTemporaryExpr', 'CXXBindTemporaryExpr', 'ExprWithCleanups', 'CXXFunctionalCastExpr',
+        'CXXStaticCastExpr', 'CXXConstCastExpr')
+
+
+def sinks(funcs, f, n, depth, origin=None):
+    """Where does the non-owning value computed by expression n end up? A list of ('lookup',) / ('compare',) / ('bad', callee, func, node).
+    Followed: value wrappers, GenericValue(GenericStringRef) and copy / move constructions, named locals (every use of the variable),
+    std::move / std::forward, and the return value (every call site of the function, to depth 3)."""
+    origin = origin or (f, n)
+    if depth > 3:
+        return [('bad', 'a chain of helpers deeper than the rule follows', f, n)]
+    p = f.parent(n)
+    cur = n
+    while p is not None:
+        if p['k'] in WRAP:
+            cur, p = p, f.parent(p)
+            continue
+        if p['k'] in ('CXXConstructExpr', 'CXXTemporaryObjectExpr'):
+            c = f.callee(p)
+            pts = [f.type(x) for x in (c or {}).get('pt', [])]
+            if c is not None and len(pts) == 1 and ('GenericStringRef' in pts[0] or 'GenericValue' in pts[0]):
+                cur, p = p, f.parent(p)
+                continue
+        if p['k'] == 'CallExpr' and (f.callee(p) or {}).get('n') in ('move', 'forward') and (f.callee(p) or {}).get('q', '').startswith('std::'):
+            cur, p = p, f.parent(p)
+            continue
+        break
+    if p is None:
+        return []
+    if p['k'] == 'ReturnStmt':
+        out = []
+        n_calls = 0
+        for g in funcs:
+            for m in g.walk():
+                if m['k'] not in CALLS:
+                    continue
+                cc = g.callee(m)
+                if cc is None or cc.get('q') != f.q or cc.get('n') != f.name:
+                    continue
+                n_calls += 1
+                out.extend(sinks(funcs, g, m, depth + 1, origin))
+        return out
+    if p['k'] == 'DeclStmt':
+        ds = p.get('decls', [])
+        # which declarator does cur initialise?
+        idx = [i for i, c in enumerate(p.get('c', [])) if c is cur]
+        d = ds[idx[0]] if idx and idx[0] < len(ds) else (ds[0] if len(ds) == 1 else None)
+        if d is None:
+            return [('bad', 'a declaration the rule cannot read', f, n)]
+        out = []
+        for x in f.walk():
+            if x['k'] == 'DeclRefExpr' and x.get('d') == d['d']:
+                out.extend(sinks(funcs, f, x, depth, origin))
+        return out
+    if p['k'] in CALLS:
+        c = f.callee(p) or {}
+        nm = c.get('n')
+        if nm == 'FindMember':
+            return [('lookup',)]
+        if nm in ('operator==', 'operator!='):
+            return [('compare',)]
+        if nm in ('GetString', 'GetStringLength', 'IsString'):
+            return []
+        return [('bad', nm, origin[0] if depth == 0 and origin[1] is n else f, origin[1] if depth == 0 and origin[1] is n else p)]
+    if p['k'] in ('BinaryOperator',) and p.get('op') in ('==', '!='):
+        return [('compare',)]
+    return [('bad', None, origin[0] if depth == 0 and origin[1] is n else f, origin[1] if depth == 0 and origin[1] is n else cur)]
+
+
 def check(prog, rep, rule):
     rep.rule(rule, 'RapidJSON DOM: a string node is non-owning only for a literal or as a FindMember lookup '
                    'argument; every other string is copied with the allocator (the document is rendered later, in Finalize)', floor=2)
@@ -95,55 +164,30 @@ def check(prog, rep, rule):
             if a is not None and a['k'] == 'StringLiteral':
                 rep.ok(rule, '%s|literal' % name, sample={'site': f.loc(n), 'form': what})
                 continue
-            # does the reference leave through the return value? then every caller decides
-            user = _enclosing_call(f, n)
-            esc_ret = False
-            p = f.parent(n)
-            while p is not None:
-                if p['k'] == 'ReturnStmt':
-                    esc_ret = True
-                    break
-                p = f.parent(p)
-            if esc_ret and (user is None or user['k'] == 'ReturnStmt'):
-                bad = []
-                n_calls = 0
-                for g in funcs:
-                    for m in g.walk():
-                        if m['k'] not in CALLS:
-                            continue
-                        cc = g.callee(m)
-                        if cc is None or cc.get('q') != f.q or cc.get('n') != f.name:
-                            continue
-                        n_calls += 1
-                        u = _enclosing_call(g, m)
-                        uc = g.callee(u) if u is not None and u['k'] in CALLS else None
-                        if uc is None or uc.get('n') != 'FindMember':
-                            bad.append((g, m, (uc or {}).get('n')))
-                if n_calls == 0:
-                    rep.ok(rule, '%s|helper without a caller' % name, sample={'site': f.loc(n)})
-                    continue
-                if not bad:
-                    rep.ok(rule, '%s|returned by %s, whose %d call(s) are all FindMember lookups' % (name, f.name, n_calls),
-                           sample={'site': f.loc(n), 'form': what})
-                    continue
-                for g, m, un in bad:
+            res = sinks(funcs, f, n, 0)
+            bad = [x for x in res if x[0] == 'bad']
+            if not res:
+                rep.ok(rule, '%s|not used' % name, sample={'site': f.loc(n)})
+            elif not bad:
+                kinds = sorted(set(x[0] for x in res))
+                rep.ok(rule, '%s|%s' % (name, 'lookup argument of FindMember' if kinds == ['lookup'] else 'reaches only ' + ' / '.join(kinds)),
+                       sample={'site': f.loc(n), 'form': what, 'uses followed': len(res)})
+            else:
+                for _, un, g, m in bad:
                     k2 = (g.pq if g.cls else g.name, m['l'])
                     if k2 in done:
                         continue
                     done.add(k2)
-                    rep.finding(rule, '%s|non-owning node from %s handed to %s' % (k2[0], f.name, un or 'a non-lookup use'), g.loc(m),
-                                '%s: the node made by %s only refers to the caller\'s characters (%s), but here it is given to %s: the DOM keeps a '
-                                'pointer into a string that is gone before Finalize() renders the document' % (k2[0], f.name, what, un or 'a non-lookup use'),
-                                func=g.id)
-                continue
-            uc = f.callee(user) if user is not None and user['k'] in CALLS else None
-            if uc is not None and uc.get('n') == 'FindMember':
-                rep.ok(rule, '%s|lookup argument of FindMember' % name, sample={'site': f.loc(n), 'form': what})
-                continue
-            rep.finding(rule, '%s|non-owning string node (%s)' % (key[0], what), f.loc(n),
-                        '%s: %s refers to the caller\'s characters without copying them%s: the DOM is rendered only in Finalize(), when a '
-                        'transcoding buffer or temporary string it points into has been overwritten or destroyed'
-                        % (key[0], what, (' and is handed to %s' % uc.get('n')) if uc is not None else ''), func=f.id)
+                    if g is f and m is n:
+                        rep.finding(rule, '%s|non-owning string node (%s)' % (key[0], what), f.loc(n),
+                                    '%s: %s refers to the caller\'s characters without copying them%s: the DOM is rendered only in Finalize(), when a '
+                                    'transcoding buffer or temporary string it points into has been overwritten or destroyed'
+                                    % (key[0], what, (' and is handed to %s' % un) if un else ''), func=f.id)
+                    else:
+                        rep.finding(rule, '%s|non-owning node from %s handed to %s' % (k2[0], f.name, un or 'a non-lookup use'), g.loc(m),
+                                    '%s: the node made by %s only refers to the caller\'s characters (%s), but here it is given to %s: the DOM keeps a '
+                                    'pointer into a string that is gone before Finalize() renders the document' % (k2[0], f.name, what, un or 'a non-lookup use'),
+                                    func=g.id)
     if n_own < 1:
         rep.defer_broken('%s: only %d owning string operations (allocator form) found in %s; expected the value, key and root paths' % (rule, n_own, FILE))
     rep.note('%s: %d owning (allocator) string operations and %d non-owning site(s) classified in %s' % (rule, n_own, len(seen), FILE))
